@@ -367,6 +367,11 @@ func (r *rw) memYield() ast.Stmt { return &ast.ExprStmt{X: hook("MemYield", r.si
 // the profile says so), every other function gets MemYieldAll (on only in runs drawn as "dense": preemption between
 // plain memory accesses anywhere in the code under test).
 func (r *rw) anyYield() ast.Stmt {
+	if strings.HasPrefix(r.fn, "var.") || r.fn == "init" {
+		// initialisers of package variables, in practice the New functions of sync.Pools: whether the runtime calls them
+		// depends on the garbage collector, a scheduling point there would make runs unrepeatable
+		return nil
+	}
 	if r.isDense() {
 		return r.memYield()
 	}
